@@ -106,6 +106,10 @@ type genOpts struct {
 	// band; character-level pages are chosen per page (only the openers, only the others,
 	// a random subset, all).
 	mix bool
+	// long: a long document (15 up to maxPages pages, see longPageCount): everything else
+	// is drawn as for the short ones.
+	long     bool
+	maxPages int
 }
 
 type slot struct{ y, h int }
@@ -232,6 +236,10 @@ func genDoc(r *hx.Rng, o genOpts) Doc {
 		n = r.Range(3, 8)
 	default:
 		n = r.Range(9, 14)
+	}
+	if o.long {
+		n = longPageCount(r.Fork(0x10F6), o.maxPages)
+		tag("long")
 	}
 	if n == 1 {
 		tag("1page")
@@ -434,6 +442,12 @@ func genDoc(r *hx.Rng, o genOpts) Doc {
 				ts = hdr2
 			}
 			w := openerWords[i%len(openerWords)]
+			if i >= len(openerWords) { // long documents: still a title that occurs nowhere else
+				w += " " + openerWords[(i/len(openerWords))%len(openerWords)]
+				if i >= len(openerWords)*len(openerWords) {
+					w += " " + openerWords[(i/(len(openerWords)*len(openerWords)))%len(openerWords)]
+				}
+			}
 			add(hx.Pick(xr, []string{"Part ", "The Book of ", "", "Appendix "})+w, openerTitleX, ts)
 			if xr.Chance(1, 2) {
 				add("Imprint "+w+" Press", 72, ftr1)
